@@ -186,17 +186,32 @@ def check_ids(lo, hi, res):
     return names
 
 
-def check_alloc(n, res):
+def successors_of_reserved(limit):
+    """Names generated right after a reserved short name (keep-files built from them exercise the interplay of the
+    two skip rules), plus runs of consecutive names."""
+    F = factory_cls()
+    reserved = set(KEYWORDS) | set(BUILTINS_SNAPSHOT)
+    out = []
+    for i in range(limit):
+        if F._name_for_id(i) in reserved:
+            out.append(F._name_for_id(i + 1))
+            out.append(F._name_for_id(i + 2))
+    return sorted(set(out) - reserved)
+
+
+def check_alloc(n, res, keep=None):
     """n fresh names in sequence: injective, none reserved."""
-    f = new_factory([b'a', b'ba', b'zz'], False)
-    reserved = set(KEYWORDS) | set(BUILTINS_SNAPSHOT) | {b'a', b'ba', b'zz'}
+    keep = [b'a', b'ba', b'zz'] if keep is None else keep
+    f = new_factory(keep, False)
+    reserved = set(KEYWORDS) | set(BUILTINS_SNAPSHOT) | set(keep)
+    keepset = set(keep)
     out = {}
     for i in range(n):
         name = b'v%d_' % i
         res.evaluations += 1
         g = f.get_short_name(name)
         if g in reserved:
-            res.violation('C02|alloc|generated-reserved|%s' % ('keep-file' if g in (b'a', b'ba', b'zz') else 'reserved'),
+            res.violation('C02|alloc|generated-reserved|%s' % ('keep-file' if g in keepset else 'reserved'),
                           'allocation %d returned the reserved/kept name %r' % (i, g), {'alloc': i})
             return
         if g in out:
@@ -311,6 +326,7 @@ def run_shard(item):
             res.nontriv(('ids', item[1]))
     elif kind == 'alloc':
         check_alloc(item[1], res)
+        check_alloc(item[1], res, keep=successors_of_reserved(26 ** 3))
     elif kind == 'extra':
         for src in EXTRA_PROGRAMS:
             for cfg in c01.CONFIGS:
